@@ -134,6 +134,17 @@ def run_systems(case, r):
     shape, wp = tuple(case["shape"]), case["wp"]
     dim = len(shape)
     vs = Wh.voxel_sizes(dim, "aniso")
+    # non-initial process state: solver objects on a grid of the SAME shape but OTHER voxel sizes have
+    # been built and used before (state kept between objects, e.g. setups cached per shape, shows up)
+    for form in (("pressure", "direct"), ("flux_reduced", "direct"), ("full", "direct")):
+        try:
+            o0, g0 = solver(shape, Wh.voxel_sizes(dim, "unit"), form)
+            b0 = np.zeros(g0.num_faces + g0.num_cells + 1)
+            if g0.num_faces:
+                b0[0] = 1.0
+            o0.linear_solve(assemble(o0, np.ones(g0.num_faces)), b0, np.zeros_like(b0))
+        except Exception:  # noqa: BLE001  (reported by the main loop below on the grid under test)
+            pass
     objs = {}
     for form in FORMS:
         try:
@@ -205,6 +216,31 @@ def run_systems(case, r):
             for comp, sl in (("flux", slice(0, nf)), ("pressure", slice(nf, nf + nc)), ("multiplier", slice(nf + nc, None))):
                 err = float(np.max(np.abs(x[sl] - x0[sl]))) if x[sl].size else 0.0
                 r.check(err <= tol * sc, f"C08/agreement/{form[0]}-{form[1]}/{comp}/dim={dim}/{shape_cls(shape)}", "formulation / back-end yields the same flux, pressure and multiplier as the full direct solve", shape=shape, rhs=name, err=err, wp=wp)
+    # ---- one caller-owned options dict (library default tolerances) shared by an AMG and then a CG
+    # object; both must solve a right-hand side of tiny magnitude to relative accuracy
+    if nf and wp == 0:
+        import darsia.measure.wasserstein as W
+
+        w = weights(nf, 0, True)
+        Aref = assemble_ref(ref, w, pinned)
+        basis1 = list(rhs_basis(nf, nc, pinned))
+        b = sum(bb for _, bb in basis1[: min(6, len(basis1))]) * 2.0**-40
+        shared_lso = {"maxiter": 300}
+        xs = {}
+        for backend in ("amg", "cg", "direct"):
+            try:
+                ob = W.WassersteinDistanceNewton(Wh.make_grid(shape, vs), None, {"formulation": "pressure", "linear_solver": backend, "linear_solver_options": shared_lso})
+                x, _ = ob.linear_solve(assemble(ob, w), b.copy(), np.zeros_like(b))
+                xs[backend] = np.asarray(x, dtype=float)
+            except Exception as e:  # noqa: BLE001
+                r.fail(f"C08/shared-options/pressure-{backend}", "back-ends built from one shared options dict solve the system", exception=repr(e)[:300], shape=shape)
+        if "direct" in xs:
+            sc = float(np.max(np.abs(xs["direct"])))
+            for backend in ("amg", "cg"):
+                if backend in xs:
+                    err = float(np.max(np.abs(xs[backend] - xs["direct"])))
+                    r.check(err <= 1e-4 * sc, f"C08/shared-options/pressure-{backend}", "with one shared options dict (default tolerances) the iterative back-end agrees with the direct solve to 1e-4 relative, also for a tiny right-hand side", err_rel=err / sc if sc else err, shape=shape)
+        r.check(shared_lso == {"maxiter": 300}, "C08/shared-options/dict-unchanged", "the caller's linear_solver_options dict is not modified", got=shared_lso)
     r.outcome((shape, wp, pinned))
 
 
